@@ -41,11 +41,71 @@ impl Arbiter {
 impl System { pub fn try_current() -> Option<System> { None } pub fn stop(&self) {} }
 
 pub mod net {
-    use std::io;
+    //! Opaque streams (an identifier), scripted TCP connects (actix-tls connector) and the `ActixStream` trait.
+    use std::{future::Future, io, net::SocketAddr, pin::Pin, task::{Context, Poll}};
+    pub use tokio::io::{AsyncRead, AsyncWrite, ReadBuf};
+    #[derive(Debug)] pub struct Ready;
     #[derive(Debug)] pub struct TcpStream(pub usize);
     #[derive(Debug)] pub struct UnixStream(pub usize);
-    impl TcpStream { pub fn from_std(s: std::net::TcpStream) -> io::Result<Self> { use std::os::unix::io::IntoRawFd; Ok(TcpStream(s.into_raw_fd() as usize)) } }
+    impl TcpStream {
+        pub fn from_std(s: std::net::TcpStream) -> io::Result<Self> { use std::os::unix::io::IntoRawFd; Ok(TcpStream(s.into_raw_fd() as usize)) }
+        pub fn connect(addr: SocketAddr) -> ConnectFut { dial(addr, None) }
+        pub fn peer_addr(&self) -> io::Result<SocketAddr> { Ok(SocketAddr::from(([127, 0, 0, 1], self.0 as u16))) }
+    }
     impl UnixStream { pub fn from_std(s: std::os::unix::net::UnixStream) -> io::Result<Self> { use std::os::unix::io::IntoRawFd; Ok(UnixStream(s.into_raw_fd() as usize)) } }
+    /// script: outcome per dialled address, consumed in dial order; every dial is logged with the local bind address
+    #[derive(Clone, Copy, Debug)] pub struct Outcome { pub pend: u8, pub ok: bool, pub err_id: i32 }
+    pub struct Env { pub script: Vec<Outcome>, pub next: usize, pub dialled: Vec<(SocketAddr, Option<SocketAddr>)> }
+    pub static mut ENV: Env = Env { script: Vec::new(), next: 0, dialled: Vec::new() };
+    pub struct ConnectFut { addr: SocketAddr, o: Outcome }
+    impl Future for ConnectFut {
+        type Output = io::Result<TcpStream>;
+        fn poll(mut self: Pin<&mut Self>, _: &mut Context<'_>) -> Poll<Self::Output> {
+            if self.o.pend > 0 { self.o.pend -= 1; return Poll::Pending; }
+            if self.o.ok { Poll::Ready(Ok(TcpStream(self.addr.port() as usize))) } else { Poll::Ready(Err(io::Error::from_raw_os_error(self.o.err_id))) }
+        }
+    }
+    fn dial(addr: SocketAddr, bound: Option<SocketAddr>) -> ConnectFut {
+        #[allow(static_mut_refs)]
+        let o = unsafe {
+            let e = &mut ENV; e.dialled.push((addr, bound));
+            if e.next < e.script.len() { e.next += 1; e.script[e.next - 1] } else { Outcome { pend: 0, ok: false, err_id: 111 } }
+        };
+        ConnectFut { addr, o }
+    }
+    pub struct TcpSocket { v6: bool, bound: std::cell::Cell<Option<SocketAddr>> }
+    impl TcpSocket {
+        pub fn new_v4() -> io::Result<TcpSocket> { Ok(TcpSocket { v6: false, bound: std::cell::Cell::new(None) }) }
+        pub fn new_v6() -> io::Result<TcpSocket> { Ok(TcpSocket { v6: true, bound: std::cell::Cell::new(None) }) }
+        pub fn bind(&self, a: SocketAddr) -> io::Result<()> { if a.is_ipv6() != self.v6 { return Err(io::ErrorKind::InvalidInput.into()); } self.bound.set(Some(a)); Ok(()) }
+        pub fn connect(self, addr: SocketAddr) -> ConnectFut { dial(addr, self.bound.get()) }
+    }
+    macro_rules! io_impl { ($t:ty) => {
+        impl AsyncRead for $t { fn poll_read(self: Pin<&mut Self>, _: &mut Context<'_>, _: &mut ReadBuf<'_>) -> Poll<io::Result<()>> { Poll::Ready(Ok(())) } }
+        impl AsyncWrite for $t {
+            fn poll_write(self: Pin<&mut Self>, _: &mut Context<'_>, b: &[u8]) -> Poll<io::Result<usize>> { Poll::Ready(Ok(b.len())) }
+            fn poll_flush(self: Pin<&mut Self>, _: &mut Context<'_>) -> Poll<io::Result<()>> { Poll::Ready(Ok(())) }
+            fn poll_shutdown(self: Pin<&mut Self>, _: &mut Context<'_>) -> Poll<io::Result<()>> { Poll::Ready(Ok(())) }
+        }
+        impl ActixStream for $t {
+            fn poll_read_ready(&self, _: &mut Context<'_>) -> Poll<io::Result<Ready>> { Poll::Ready(Ok(Ready)) }
+            fn poll_write_ready(&self, _: &mut Context<'_>) -> Poll<io::Result<Ready>> { Poll::Ready(Ok(Ready)) }
+        }
+    } }
+    pub trait ActixStream: AsyncRead + AsyncWrite + Unpin {
+        fn poll_read_ready(&self, cx: &mut Context<'_>) -> Poll<io::Result<Ready>>;
+        fn poll_write_ready(&self, cx: &mut Context<'_>) -> Poll<io::Result<Ready>>;
+    }
+    io_impl!(TcpStream); io_impl!(UnixStream);
+}
+pub mod task {
+    use std::{future::Future, io, pin::Pin, task::{Context, Poll}};
+    #[derive(Debug)] pub struct JoinError;
+    impl From<JoinError> for io::Error { fn from(_: JoinError) -> io::Error { io::Error::from_raw_os_error(4) } }
+    pub struct JoinHandle<T>(pub Option<T>);
+    impl<T: Unpin> Future for JoinHandle<T> { type Output = Result<T, JoinError>; fn poll(mut self: Pin<&mut Self>, _: &mut Context<'_>) -> Poll<Self::Output> { Poll::Ready(Ok(self.0.take().unwrap())) } }
+    /// model: the blocking closure is run inline (the default DNS lookup behind it is outside what the checks decide)
+    pub fn spawn_blocking<F: FnOnce() -> R, R>(f: F) -> JoinHandle<R> { JoinHandle(Some(f())) }
 }
 pub mod signal {
     pub mod unix {
